@@ -15,8 +15,10 @@ from checks.common import verdict
 
 # observable identities: (destination, is_admin).  WireServer / HostGAPlugin are root-only (C03), so
 # they appear with is_admin = 1 only; every identity here is relayed (200) when it is the one in force.
+DOWN = "10.9.8.7:81"       # nothing listens there: the upstream connect made at accept time fails -> 502
 IDENTITIES = [(IMDS, 1), (IMDS, 0), (OTHER, 1), (OTHER, 0), (LOCAL_OTHER, 1), (LOCAL_OTHER, 0),
-              (WIRESERVER, 1), (HOSTGA, 1)]
+              (WIRESERVER, 1), (HOSTGA, 1), (DOWN, 1), (DOWN, 0)]
+DOWN_IDS = {8, 9}
 PORT_POOL = [p for p in range(11000, 17900)]
 
 
@@ -24,50 +26,75 @@ def gen_history(rng, idx, concurrent):
     n = rng.randint(2, 8)
     ids = list(range(len(IDENTITIES)))
     rng.shuffle(ids)
+    # two unreachable-destination identities are not told apart by an observer: use at most one per history
+    if 8 in ids[:n + 2] and 9 in ids[:n + 2]:
+        ids.remove(9)
     if concurrent:
         ports = rng.sample(PORT_POOL, n)
     else:
         alphabet = rng.sample(PORT_POOL, 3)
-        # bias towards immediate reuse of the previous port
         ports = []
         for i in range(n):
             if i > 0 and rng.random() < 0.5:
-                ports.append(ports[-1])
+                ports.append(ports[-1])          # immediate reuse of the previous port
             else:
                 ports.append(rng.choice(alphabet))
     inject = (not concurrent) and rng.random() < 0.15
     conns = []
-    failing = False
-    for i in range(n):
+    nxt = 0
+    i = 0
+    while i < n:
         has_rec = rng.random() < (0.6 if not concurrent else 0.75)
-        k = rng.randint(1, 5)
-        c = {"id": i + 1, "port": ports[i], "rec": ids[i] if has_rec else None, "nreq": k, "fail": False}
+        # 0 requests: connect, wait until accepted, close (sequential histories only)
+        k = 0 if (not concurrent and rng.random() < 0.15) else rng.randint(1, 5)
+        c = {"id": i + 1, "port": ports[i], "rec": None, "nreq": k, "fail": False, "pre": False, "late": None}
+        if has_rec:
+            c["rec"] = ids[nxt]
+            nxt += 1
         if inject:
-            want = rng.random() < 0.4
-            c["fail"] = want
+            c["fail"] = rng.random() < 0.4
         conns.append(c)
+        # a record written for the NEXT connection from this port while this direct connection is still open
+        if (not concurrent and not inject and c["rec"] is None and k >= 2 and i + 1 < n and rng.random() < 0.5):
+            ports[i + 1] = ports[i]
+            c["late"] = (rng.randrange(k - 1), ids[nxt])          # after request j the kernel writes record ids[nxt]
+            conns.append({"id": i + 2, "port": ports[i], "rec": ids[nxt], "nreq": rng.randint(1, 4), "fail": False,
+                          "pre": True, "late": None})
+            nxt += 1
+            i += 1
+        i += 1
     return {"idx": idx, "concurrent": concurrent, "conns": conns}
+
+
+def ident_audit(rec):
+    dest, adm = IDENTITIES[rec]
+    return audit(dest, uid=0 if adm else e2e.NOBODY_UID, pid="self" if rec % 2 == 0 else "helper", is_admin=adm)
 
 
 def to_scenario(h):
     cs = []
     failing = False
+    accepted = {}           # port -> connections accepted from it so far
     for c in h["conns"]:
+        accepted[c["port"]] = accepted.get(c["port"], 0) + 1
         reqs = []
         for j in range(c["nreq"]):
             raw = http_request("GET", "/s%d/c%d/r%d?x=1" % (h["idx"], c["id"], j), [("Metadata", "true")])
+            after = []
             if j == 0 and not h["concurrent"]:
-                reqs.append(req(raw, ops_after=[{"op": "snapshot", "label": c["id"]}]))
-            else:
-                reqs.append(req(raw))
-        a = None
-        if c["rec"] is not None:
-            dest, adm = IDENTITIES[c["rec"]]
-            a = audit(dest, uid=0 if adm else e2e.NOBODY_UID, pid="self" if c["rec"] % 2 == 0 else "helper", is_admin=adm)
+                after.append({"op": "snapshot", "label": c["id"]})
+            if c["late"] and c["late"][0] == j:
+                after.append({"op": "insert_audit", "port": c["port"], "audit": ident_audit(c["late"][1])})
+            reqs.append(req(raw, ops_after=after) if after else req(raw))
+        a = ident_audit(c["rec"]) if (c["rec"] is not None and not c["pre"]) else None
         knobs = {}
         if c["fail"] != failing:
             knobs["ops_before_connect"] = [{"op": "fail_remove", "value": c["fail"]}]
             failing = c["fail"]
+        if c["nreq"] == 0:
+            # no request at all: wait until the listener has accepted the connection, look at the map, close
+            knobs["ops_before_close"] = [{"op": "wait_trace", "port": c["port"], "lookups": accepted[c["port"]]},
+                                         {"op": "snapshot", "label": c["id"]}]
         cs.append(conn(reqs, audit=a, local_port=c["port"], id=c["id"], **knobs))
     return scenario({"c07": h["idx"]}, cs, concurrent=h["concurrent"])
 
@@ -80,14 +107,19 @@ def model_history(h, trace):
     by_port = {}
     if not h["concurrent"]:
         for c in h["conns"]:
-            if c["rec"] is not None:
+            if c["rec"] is not None and not c["pre"]:
                 ops.append("KRecord %d %d %d" % (c["id"], c["port"], c["rec"]))
             ops.append("Lookup %d %d" % (c["id"], c["port"]))
             ops.append("Remove %d %s" % (c["id"], "false" if c["fail"] else "true"))
+            if c["nreq"] == 0:
+                cuts.append(len(ops))
             for j in range(c["nreq"]):
                 ops.append("Request %d %d" % (c["id"], j))
                 if j == 0:
                     cuts.append(len(ops))
+                if c["late"] and c["late"][0] == j:
+                    # the kernel's write for the NEXT connection from this port (ghost tag = its id)
+                    ops.append("KRecord %d %d %d" % (c["id"] + 1, c["port"], c["late"][1]))
             ops.append("Close %d" % c["id"])
     else:
         for c in h["conns"]:
@@ -148,7 +180,11 @@ def observe(h, r):
 
 
 def expected_obs(ctx_ident):
-    return (421, None) if ctx_ident is None else (200, ctx_ident)
+    if ctx_ident is None:
+        return (421, None)
+    if ctx_ident in DOWN_IDS:
+        return (502, None)          # attributed, but the destination was unreachable at accept time
+    return (200, ctx_ident)
 
 
 def property_check(h, r, obs):
@@ -158,7 +194,12 @@ def property_check(h, r, obs):
     for c in h["conns"]:
         for j in range(c["nreq"]):
             st, ident = obs[(c["id"], j)]
-            if c["rec"] is not None:
+            if c["rec"] is not None and c["rec"] in DOWN_IDS:
+                # own record names a destination where nothing listens: attributed, answered 502, nothing relayed
+                if ident is not None or st != 502:
+                    return "request %d on connection %d (own record %r, unreachable) was answered %s%s" % (
+                        j, c["id"], IDENTITIES[c["rec"]], st, "" if ident is None else " and relayed under %r" % (ident,))
+            elif c["rec"] is not None:
                 # the kernel recorded an identity for this very connection: every request on it is
                 # decided with exactly that identity
                 if ident != c["rec"] or st != 200:
@@ -166,7 +207,8 @@ def property_check(h, r, obs):
                     return "request %d on connection %d (own record %r) was handled with %s (status %s)" % (
                         j, c["id"], IDENTITIES[c["rec"]], who, st)
             elif not injected:
-                # no kernel record for this connection (direct, or reusing a source port): unattributed, refused
+                # no kernel record for this connection (direct, or reusing a source port; also when a record for
+                # ANOTHER connection shows up under its port later): unattributed at accept, never relayed, refused
                 if ident is not None or st != 421:
                     return "request %d on connection %d, which has NO kernel record (port %d), was %s (status %s)" % (
                         j, c["id"], c["port"],
@@ -188,15 +230,20 @@ def run(ctx):
     nseq, nconc = (210, 90) if ctx.quick else (3500, 1500)
     hs = [gen_history(rng, i, False) for i in range(nseq)] + [gen_history(rng, nseq + i, True) for i in range(nconc)]
     # fixed corner cases first: reuse after attributed, reuse with a fresh record, failing remove + reuse
+    def C(i, port, rec, nreq, fail=False, pre=False, late=None):
+        return {"id": i, "port": port, "rec": rec, "nreq": nreq, "fail": fail, "pre": pre, "late": late}
     fixed = [
-        {"idx": 900001, "concurrent": False, "conns": [
-            {"id": 1, "port": 11001, "rec": 0, "nreq": 3, "fail": False}, {"id": 2, "port": 11001, "rec": None, "nreq": 2, "fail": False},
-            {"id": 3, "port": 11001, "rec": 6, "nreq": 2, "fail": False}, {"id": 4, "port": 11001, "rec": None, "nreq": 1, "fail": False}]},
-        {"idx": 900002, "concurrent": False, "conns": [
-            {"id": 1, "port": 11002, "rec": 2, "nreq": 1, "fail": True}, {"id": 2, "port": 11002, "rec": None, "nreq": 2, "fail": False},
-            {"id": 3, "port": 11002, "rec": None, "nreq": 1, "fail": False}]},
-        {"idx": 900003, "concurrent": True, "conns": [
-            {"id": i + 1, "port": 11010 + i, "rec": (i if i % 3 else None), "nreq": 1 + i % 5, "fail": False} for i in range(8)]},
+        # reuse after an attributed connection, reuse with a fresh record, reuse again
+        {"idx": 900001, "concurrent": False, "conns": [C(1, 11001, 0, 3), C(2, 11001, None, 2), C(3, 11001, 6, 2), C(4, 11001, None, 1)]},
+        # an injected failing remove, then reuse
+        {"idx": 900002, "concurrent": False, "conns": [C(1, 11002, 2, 1, fail=True), C(2, 11002, None, 2), C(3, 11002, None, 1)]},
+        {"idx": 900003, "concurrent": True, "conns": [C(i + 1, 11010 + i, (i if i % 3 else None), 1 + i % 5) for i in range(8)]},
+        # an attributed connection that never sends a request, then a direct connection reusing its port
+        {"idx": 900004, "concurrent": False, "conns": [C(1, 11003, 0, 0), C(2, 11003, None, 2), C(3, 11004, None, 0), C(4, 11004, 2, 1)]},
+        # the recorded destination is unreachable at accept time (502), then the port is reused without a record
+        {"idx": 900005, "concurrent": False, "conns": [C(1, 11005, 8, 2), C(2, 11005, None, 2), C(3, 11005, 9, 0), C(4, 11005, None, 1)]},
+        # a record for the NEXT connection appears under the port of a still open direct connection
+        {"idx": 900006, "concurrent": False, "conns": [C(1, 11006, None, 3, late=(0, 0)), C(2, 11006, 0, 2, pre=True), C(3, 11006, None, 1)]},
     ]
     hs = fixed + hs
     scs = [to_scenario(h) for h in hs]
@@ -208,6 +255,7 @@ def run(ctx):
                "  (map (fun o => match o with Decided c r x => (c, r, x) end) (outs init h),\n"
                "   map fst (audit (final init h)),\n"
                "   map (fun n => map fst (audit (final init (firstn n h)))) cuts,\n"
+               "   map (fun kv => (fst kv, cs_ctx (snd kv))) (conns (final init h)),\n"
                "   (exclusive h, removes_ok h)).\n")
     exprs = []
     for h, r in zip(hs, results):
@@ -224,7 +272,7 @@ def run(ctx):
             disagreements.append({"case": case, "model": "runs", "impl": {"error": r.get("error"), "panics": r.get("panics"),
                                   "conn_errors": [(c.get("connect_error"), c.get("error")) for c in r["connections"]]}})
             continue
-        decided, final_ports, snap_ports, (excl, rok) = mo
+        decided, final_ports, snap_ports, ctx_table, (excl, rok) = mo
         obs = observe(h, r)
         why = property_check(h, r, obs)
         if why:
@@ -249,9 +297,7 @@ def run(ctx):
                 disagreements.append({"case": case, "model": {"audit_ports_after_each_accept": snap_ports}, "impl": got})
             # the lookup/remove trace in program order
             want = []
-            ctxs = {}
-            for (c, j, x) in decided:
-                ctxs[c] = x
+            ctxs = {c: x for (c, x) in ctx_table}
             for c in h["conns"]:
                 found = ctxs.get(c["id"]) is not None
                 want.append(("lookup", c["port"], found))
@@ -278,14 +324,19 @@ def run(ctx):
                                + len({repr(h["conns"]) for h in hs if h["concurrent"]}),
         "traces_validated_against_impl": total - len({repr(d["case"]) for d in disagreements}),
         "rule": "histories of 2-8 connections: sequential over a 3-port alphabet (record / no record, immediate source-port reuse, "
-                "1-5 keep-alive requests, 15% with an injected failing remove) and concurrent on distinct ports (all connections at "
+                "0-5 keep-alive requests -- 0 = connect, wait for the accept, close --, records whose destination is unreachable at accept "
+                "time, records written for the next connection while a direct connection from the same port is still open, 15% with an "
+                "injected failing remove) and concurrent on distinct ports (all connections at "
                 "once on a 2-thread runtime; the model replays the lookup/remove order of the real trace); non-trivial = sequential "
                 "history with a reused port and at least one record, or a concurrent history; distinct by content",
         "exhaustive": False,
         "samples": [{"history": hs[0], "statuses": e2e.statuses(results[0]), "model_decided": model[0][0]},
                     {"history": hs[1], "statuses": e2e.statuses(results[1]), "model_decided": model[1][0]},
                     {"history": hs[3], "statuses": e2e.statuses(results[3]), "trace": results[3]["trace"]}],
-        "input_distribution": {"sequential": nseq + 2, "concurrent": nconc + 1, "requests": n_req, "connections_with_record": n_attr,
+        "input_distribution": {"sequential": nseq + 5, "concurrent": nconc + 1,
+                               "connections_without_any_request": sum(1 for h in hs for c in h["conns"] if c["nreq"] == 0),
+                               "records_with_unreachable_destination": sum(1 for h in hs for c in h["conns"] if c["rec"] in DOWN_IDS),
+                               "records_written_under_an_open_direct_connection": sum(1 for h in hs for c in h["conns"] if c["late"]), "requests": n_req, "connections_with_record": n_attr,
                                "connections_without_record": n_unattr, "port_reuses": n_reuse,
                                "histories_with_injected_remove_failure": sum(1 for h in hs if any(c["fail"] for c in h["conns"])),
                                "stale_record_inherited_after_injected_failure": n_stale},
